@@ -198,6 +198,19 @@ fn run(sh: &mut Shard) {
             sh.running()
         });
     }
+    // sibling control templates (C11): loops around two statements inside a function, all paths
+    super::c11::sibling_templates(&mut |prog| {
+        if sh.mine() {
+            let text = printer::program(prog);
+            sh.begin(&|| text.clone());
+            sh.count("family:sibling-templates");
+            let c = check_ast(sh, &ops, "sibling-templates", &text, &prog.to_vec());
+            if c.compiled {
+                sh.nontrivial(&text);
+            }
+        }
+        sh.running()
+    });
     // nesting templates: every ordered pair / triple of constructs
     for depth in 1..=(if tier == Tier::Quick { 2 } else { 3 }) {
         crate::compose::for_each(depth, &mut |_, prog| {
